@@ -53,7 +53,7 @@ theorem bounded {c : Nat} {s : S} (h : Reachable c s) : Bounded s := by
       have hr : r ∈ s.waiting ++ [(⟨l, amt, s.nextReq⟩ : Req)] := hr
       rcases List.mem_append.mp hr with h | h
       · exact hw r h
-      · simp at h; subst h; exact Nat.le_trans h2 (hc l)
+      · simp at h; subst h; exact Nat.le_trans (Nat.le_trans h2 (effCap_le_own _ _ _)) (hc l)
     | newChild p cp hp h0 h1 =>
       have hm : s.capHi ≤ max s.capHi cp := Nat.le_max_left _ _
       refine ⟨?_, ?_, ?_, fun r hr => Nat.le_trans (hw r hr) hm⟩
